@@ -635,26 +635,53 @@ func containsVal(vs []ssa.Value, v ssa.Value) bool {
 	return false
 }
 
-// edgeEndsInError: everything reachable from edge e is dominated by e, and every Return there has a
-// non-nil error; Panic / os.Exit blocks are accepted as failing exits.
+// edgeEndsInError: every way on from edge e ends the function with a non-nil error: every Return reachable from the
+// edge's target yields a non-nil error (a phi that can be nil counts as nil), at least one exit is reachable, and
+// nothing reachable returns success. Panic / os.Exit blocks are accepted as failing exits.
 func (c *Ctx) edgeEndsInError(e edge) (bool, string) {
 	start := e.to()
-	if !edgeDominates(e, start) {
-		return false, "the non-nil edge joins the normal flow at " + c.bpos(start)
-	}
+	exits := 0
 	for b := range reach(start, nil, nil) {
-		if !edgeDominates(e, b) {
-			return false, "the non-nil edge falls through to normal flow at " + c.bpos(b)
-		}
-		if r, ok := lastInstr(b).(*ssa.Return); ok {
-			ev := returnedErr(r)
+		switch last := lastInstr(b).(type) {
+		case *ssa.Return:
+			exits++
+			ev := returnedErr(last)
 			if ev == nil {
-				return false, "function has no error result at " + c.ipos(r)
+				return false, "function has no error result at " + c.ipos(last)
 			}
-			if isNilConst(ev) {
-				return false, "returns a nil error on the failure path at " + c.ipos(r)
+			if mayBeNil(ev, map[ssa.Value]bool{}) {
+				return false, "a nil error can be returned on the failure path at " + c.ipos(last)
+			}
+		case *ssa.Panic:
+			exits++
+		}
+		for _, in := range b.Instrs {
+			if site, ok := in.(ssa.CallInstruction); ok && calleeName(site.Common()) == "os.Exit" {
+				exits++
 			}
 		}
+	}
+	if exits == 0 {
+		return false, "the failure path never leaves the function (" + c.bpos(start) + ")"
 	}
 	return true, ""
+}
+
+// mayBeNil: the error value is the constant nil, or a phi one of whose operands may be.
+func mayBeNil(v ssa.Value, seen map[ssa.Value]bool) bool {
+	if seen[v] {
+		return false
+	}
+	seen[v] = true
+	if isNilConst(v) {
+		return true
+	}
+	if phi, ok := v.(*ssa.Phi); ok {
+		for _, e := range phi.Edges {
+			if mayBeNil(e, seen) {
+				return true
+			}
+		}
+	}
+	return false
 }
